@@ -90,6 +90,7 @@ def run(tier, seed):
     drv, err = build_driver()
     if err:
         res.broken.append(("model driver build", err))
+        drv = NO_MODEL
     n = 3000 if tier == "quick" else 200000
     for fl in (["O1"] if tier == "quick" else ["O1", "O3"]):
         h, err = build_harness(fl)
